@@ -4,7 +4,7 @@
      sql  <id> <hex sql | -> <mr 0/1>
      prof <id> <hex sql | ->
      lbl  <id> <hex sql | ->
-     sel  <id> <model/implementation mismatch 0/1> <spec violation 0/1> <duplicate-label-set spec violation 0/1>
+     sel  <id> <model/implementation mismatch 0/1> <spec violation 0/1> <duplicate-label-set spec violation 0/1: PromSelDup.select_dup_exact_ok, every series carries exactly the rows of the fingerprints under its label set>
      sem  <id> <verdict code>
      psem <id> <verdict code>
      rows <id> <statement index> <code> <fp:value:timestamp_ms>...
@@ -197,11 +197,11 @@ let handle (x : sx) : unit =
   | L [A "sel"; id; cluster; h; ms; rows; fetch; obs] ->
     let sc = { sc_id = z_of id; sc_mr = querier_mr (bool_of cluster) (hints_of h) (list_of matcher_of ms);
                sc_rows = list_of row_of rows; sc_fetch = list_of (pair_of n_of labels_of) fetch; sc_obs = list_of out_of obs } in
-    Printf.printf "sel %d %s %s %s\n" (int_of id) (b01 (scase_mismatch sc)) (b01 (scase_spec_violation sc)) (b01 (scase_dup_violation sc))
+    Printf.printf "sel %d %s %s %s\n" (int_of id) (b01 (scase_mismatch sc)) (b01 (scase_spec_violation sc)) (b01 (scase_dup_exact_violation sc))
   | L [A "msel"; id; cluster; h; ms; rows; series; obs] ->
     let sc = multi_scase (z_of id) (bool_of cluster) (hints_of h) (list_of matcher_of ms) (list_of row_of rows)
                (list_of ts_of series) (list_of out_of obs) in
-    Printf.printf "sel %d %s %s %s\n" (int_of id) (b01 (scase_mismatch sc)) (b01 (scase_spec_violation sc)) (b01 (scase_dup_violation sc))
+    Printf.printf "sel %d %s %s %s\n" (int_of id) (b01 (scase_mismatch sc)) (b01 (scase_spec_violation sc)) (b01 (scase_dup_exact_violation sc))
   | L [A "sem"; id; cluster; h; ms; db; tree; text; search; full] ->
     let se = { se_id = z_of id; se_cluster = bool_of cluster; se_hints = hints_of h; se_ms = list_of matcher_of ms; se_db = db_of db;
                se_impl = select_of tree; se_text = str_of text; se_search = tbl_of search @ gap_of id; se_full = tbl_of full } in
